@@ -4,7 +4,7 @@ from __future__ import annotations
 import ast
 
 from ..algebra import NotPolynomial, Poly, ToPoly
-from ..flow import axis_loops, rename
+from ..flow import single_assign_env, axis_loops, rename
 from ..fold import Folder, Obj, Opaque, Raised, Refuse, Sym, TypeTag
 from ..report import AnalysisError
 from ..srcmodel import norm
@@ -534,10 +534,15 @@ def rule_c(ctx):
                     if isinstance(st, ast.Assign) and norm(st.targets[0]) == nm:
                         letter_expr = st.value
             letter = norm(rename(letter_expr, roles)) if letter_expr is not None else "?"
+            # names are resolved through the function's single assignments (by value, not by spelling)
+            senv = {k: norm(v) for k, v in single_assign_env(f.node.body).items()}
+
+            def res(txt):
+                return senv.get(txt, txt)
             # the letter must be the matrix letter belonging to counter $k
-            letter_ok = letter == "$e" or (letter.endswith("[$k]") and "index" in letter)
-            idx_arg = norm(args[1]) if len(args) > 1 else "?"
-            cart_ok = idx_arg.startswith("'xyz'[:") or idx_arg.endswith("_axes")
+            letter_ok = letter == "$e" or (letter.endswith("[$k]") and (res(letter[:-4]).startswith("'ijk'[:") or res(letter[:-4]).endswith(".indexing")))
+            idx_arg = res(norm(args[1])) if len(args) > 1 else "?"
+            cart_ok = idx_arg.startswith("'xyz'[:")
             ctx.ob(R, f.qname, f"loop {n}: looks the matrix letter of counter k up in Cartesian indexing", letter_ok and cart_ok and al.counter is not None,
                    norm(al.call), al.call)
             test = norm(rename(iff.test, roles))
@@ -550,7 +555,7 @@ def rule_c(ctx):
                 tgt = st.targets[0] if isinstance(st, ast.Assign) else st.target
                 t, v = norm(rename(tgt, roles)), norm(rename(st.value, roles))
                 desc = f"{t} {'=' if isinstance(st, ast.Assign) else type(st.op).__name__ + '='} {v}"
-                ok = t.endswith("[$p]") and v.endswith("dimensions[$k]") and (isinstance(st, ast.Assign) or isinstance(st.op, (ast.Add, ast.Sub)))
+                ok = t.endswith("[$p]") and v.endswith("[$k]") and res(v[:-4]).split(".copy()")[0].endswith(".dimensions") and (isinstance(st, ast.Assign) or isinstance(st.op, (ast.Add, ast.Sub)))
             ctx.ob(R, f.qname, f"loop {n}: moves Cartesian component pos by dimensions[k]", ok, desc, iff)
     ctx.floor(R, 4)
     # Image.__init__: origin built from the default when not supplied
